@@ -50,6 +50,7 @@ fn role_balances(w: &World, s: &Snap) -> Vec<(String, u128)> {
     v.push(("engine".into(), s.bal(w.engine.as_str())));
     v.push(("insurance".into(), s.bal(w.insurance.as_str())));
     v.push(("fee_pool".into(), s.bal(w.fee_pool.as_str())));
+    v.push(("feepool2".into(), s.bal("feepool2")));
     v
 }
 
